@@ -62,6 +62,7 @@ BlocksPartition == phase = "sort" =>
     /\ UNION {blocks[k].s : k \in DOMAIN blocks} = U
 \* C11: under coherent preferences every schedule ends in THE coherent ranking
 PivotIndependent == Terminal /\ Coherent(C, U) => Result \in CoherentRankings(C, U)
+CoherentDefsAgree == phase = "sort" => CoherentRankings(C, U) = CoherentRankingsEnum(C, U)
 \* progress: every step strictly decreases the number of elements in pending blocks
 Pending == LET f(k) == IF blocks[k].fin THEN 0 ELSE Cardinality(blocks[k].s) IN MapThenSumSet(f, DOMAIN blocks)
 Progress == [][phase = "sort" /\ phase' = "sort" => Pending' < Pending]_vars
